@@ -88,6 +88,14 @@ class Builder:
             ops.append({"op": "run_res", "id": nid, "input": inp, "steps": steps, "zero_gains": zero})
         return ops
 
+    def sparse_sr_call(self):
+        """a very sparse square matrix (about one non-zero per row) rescaled to a spectral radius: the iterative
+        eigenvalue solver needs restarts on such matrices, and whatever it draws for them must not depend on history"""
+        g = self.g
+        n = g.choice([30, 30, 60, 100])
+        return {"init": g.choice(["bernoulli", "uniform", "normal"]), "shape": [n, n],
+                "kw": {"connectivity": g.choice([0.9, 1.0, 1.2, 1.5]) / n, "sr": 0.9}}
+
     def random_runs(self):
         g = self.g
         return [(f"x{g.randint(0, 3)}", g.randint(1, 8), g.chance(0.15)) for _ in range(g.randint(1, 3))]
@@ -95,6 +103,8 @@ class Builder:
     def other_op(self):
         g = self.g
         k = g.choice(["init_call", "init_call", "dataset", "dataset", "legacy", "new_gen", "ds_set_seed", "node", "sk", "set_seed_rare"])
+        if k == "init_call" and g.chance(0.35):
+            return [{"op": "init_call", "spec": spec_json(self.seedspec()), "call": self.sparse_sr_call()}]
         if k == "init_call":
             name, kw = g.choice(INITS)
             shape = [g.choice([12, 20]), g.choice([12, 20])]
@@ -174,6 +184,9 @@ def gen_scenario(g):
         # also the stateless components, twice, around the history
         name, kw = g.choice(INITS[:4])
         call = {"init": name, "shape": [15, 15], "kw": dict(kw, connectivity=0.5)}
+        if g.chance(0.5):
+            call = b.sparse_sr_call()
+            pre += b.other_op()         # the first of the two calls is not the first thing that happens
         ds = {"fn": g.choice(["mackey_glass", "narma"]), "n": 40}
         pre += [{"op": "init_call", "spec": {"int": s}, "call": call}, {"op": "dataset", "spec": {"int": s}, "call": ds}]
         seqs.append([{"op": "init_call", "spec": {"int": s2}, "call": call}, {"op": "dataset", "spec": {"int": s2}, "call": ds}])
@@ -211,6 +224,12 @@ def gen_scenario(g):
 
 
 # ----------------------------------------------------------------------------- implementation side
+
+def _canon_req(tag):
+    for qt in ('"', '\\"'):
+        tag = tag.replace(f', {qt}dist{qt}: {qt}norm{qt}', "").replace(f'{qt}random_sparse{qt}', f'{qt}normal{qt}')
+    return tag
+
 
 def mspec(spec):
     if spec is None:
@@ -461,6 +480,11 @@ def check_scenario(ctx, c):
                 return
             if tx == ty:
                 ctx.stat("pairs same-provenance")
+            if tx != ty and _canon_req(tx) == _canon_req(ty):
+                # random_sparse(dist="norm") and normal are two names of one initialiser: equal seeds may (and do) give
+                # equal draws; the property only separates different SEEDS
+                ctx.stat("pairs differing only by an initialiser alias")
+                continue
             if tx != ty and hx == hy and min(rx, ry) >= 8:
                 what = (f"ops {emits[x][0]} ({emits[x][2]}, array {emits[x][1]}) and {emits[y][0]} ({emits[y][2]}, array {emits[y][1]}) have different "
                         f"seeds / histories but produced identical bits")
@@ -536,11 +560,52 @@ def check_process(ctx, c):
         ctx.violation(f"set_seed({c['p']['seed']}) and set_seed({c['p']['seed'] + 1}) gave identical outputs {same}", c, obligation=ob)
 
 
+def gen_sr_batch(g, k):
+    """k very sparse square matrices rescaled to a spectral radius, each requested twice with all the others in between
+    (second round in another order). +-1 entries and about one non-zero per row give spectra with many eigenvalues of
+    equal modulus: that is where the iterative solver restarts from random vectors."""
+    calls = []
+    for _ in range(k):
+        n = g.choice([30, 30, 30, 60, 100])
+        calls.append({"init": g.choice(["bernoulli", "bernoulli", "bernoulli", "uniform", "normal"]), "n": n,
+                      "connectivity": g.choice([0.8, 0.9, 0.9, 1.0, 1.2]) / n, "sr": g.choice([0.9, 1.25]), "seed": g.randint(0, 10 ** 6)})
+    order = list(range(k))
+    g.shuffle(order)
+    return {"kind": "sr_batch", "calls": calls, "order": order}
+
+
+def check_sr_batch(ctx, c):
+    from reservoirpy import mat_gen
+    ob = "sr_history"
+
+    def one(q_):
+        M = getattr(mat_gen, q_["init"])(q_["n"], q_["n"], connectivity=q_["connectivity"], sr=q_["sr"], seed=q_["seed"])
+        return digest(M)
+    ctx.count(c, nontrivial=len(c["calls"]) >= 2, obligation=ob)
+    ctx.stat("sr-history batches")
+    try:
+        with np.errstate(all="ignore"):
+            first = [one(q_) for q_ in c["calls"]]
+            second = {i: one(c["calls"][i]) for i in c["order"]}
+    except Exception as e:  # noqa
+        ctx.violation(f"an initialiser call with sr raised {type(e).__name__}: {e}", c, obligation=ob)
+        return
+    ctx.stat("sr-history calls compared", len(first))
+    bad = [i for i in range(len(first)) if first[i] != second[i]]
+    if bad:
+        q_ = c["calls"][bad[0]]
+        ctx.violation(f"{q_['init']}({q_['n']}, {q_['n']}, connectivity={q_['connectivity']:.4g}, sr={q_['sr']}, seed={q_['seed']}) returned different "
+                      f"bits when requested again after {len(first)} other initialiser calls ({len(bad)} of {len(first)} calls differ)",
+                      c, expected=first[bad[0]], observed=second[bad[0]], obligation=ob, extra={"differing_calls": bad[:20]})
+
+
 def check_cases(ctx, cases):
     common.quiet()
     for c in cases:
         if c["kind"] == "process":
             check_process(ctx, c)
+        elif c["kind"] == "sr_batch":
+            check_sr_batch(ctx, c)
         else:
             check_scenario(ctx, c)
 
@@ -550,6 +615,7 @@ def run(ctx):
                          "feedback initialisation, 1-3 runs of 1-8 steps with noise gains in/rc/fb possibly zero), initialiser and dataset calls, np.random draws, "
                          "generator creations, datasets.set_seed, reservoirpy.set_seed, ScikitLearnNode(SGDRegressor) fits; seeds from {0, 1, 2, 42, 5555, 12345, 2^32-1}; "
                          "planted twins (int and Generator seeds), contrasts, repeated set_seed scripts; every pair of emitted arrays is compared (same provenance <=> same bits). "
+                         "plus batches of 150 very sparse initialiser calls with sr, each repeated after all the others (bit-identical). "
                          "non-trivial = at least 4 operations")
     g = ctx.gen
     cases = common.load_corpus("C14")
@@ -557,6 +623,7 @@ def run(ctx):
     for i in range(ctx.n(1, 6)):
         cases.append({"kind": "process", "p": {"seed": g.choice([0, 1, 7, 5555]), "units": g.choice([20, 30]), "noise": g.choice([0.0, 0.01]),
                                                 "fb": g.chance(0.5), "pre": g.randint(1, 4)}})
+    cases += [gen_sr_batch(g, 150) for _ in range(ctx.n(3, 15))]
     check_cases(ctx, cases)
 
 
